@@ -28,6 +28,8 @@ RULES = {
     "C08-c": "exception discipline: only LenaTypeError/LenaValueError/LenaKeyError are raised; to_string uses sort_keys=True",
     "C08-d": "exact store: UpdateContext/DeleteContext change only the addressed item, with a fresh value, and keep the data",
     "C08-e": "format_update_with formats first and updates d only through update_recursively(d, str_to_dict(...))",
+    "C08-f": "STATELESS formatter: the function format_context returns mutates nothing it captured from the enclosing call",
+    "C08-g": "SENTINEL: absence of an optional context value is decided by a private sentinel, never by None/falsiness (None is a value)",
 }
 FN = "lena.context.functions"
 LENA3 = ("lena.core.exceptions.LenaTypeError", "lena.core.exceptions.LenaValueError", "lena.core.exceptions.LenaKeyError")
@@ -615,7 +617,116 @@ def check_format_update_with(ctx):
               "updating d (a formatting error must leave d untouched)", detail="formatting precedes the update", construct="format-first")
 
 
+MUTATORS = ("append", "extend", "insert", "pop", "remove", "clear", "update", "setdefault", "popitem", "sort", "reverse", "add", "discard")
+
+
+def check_formatter_stateless(ctx):
+    """format_context(fmt) returns a function applied to many contexts (one per value of the flow, and by several elements).
+    Whatever that function captures from the enclosing call is shared by all its applications: it may read it, not change it
+    -- a value left behind by an application that failed half-way (missing key) would be rendered for the next context."""
+    fn = ctx.tree.func(FN, "format_context")
+    inner = [d for d in fn.body if isinstance(d, ast.FunctionDef)]
+    rets = [r for r in fn.body if isinstance(r, ast.Return) and isinstance(r.value, ast.Name)]
+    inner = [d for d in inner if any(r.value.id == d.name for r in rets)]
+    if not ctx.require(len(inner) == 1, "C08-f", fn, "format_context: the returned inner function was not found"):
+        return
+    g = inner[0]
+    own = set(A.func_params(g))
+    for n in A.walk_local(g, include_self=False):
+        if isinstance(n, ast.Name) and isinstance(n.ctx, (ast.Store, ast.Del)):
+            own.add(n.id)
+    declared = set()
+    for n in A.walk_local(g, include_self=False):
+        if isinstance(n, (ast.Nonlocal, ast.Global)):
+            declared.update(n.names)
+    own -= declared
+    n_free = 0
+    for n in A.walk_local(g, include_self=False):
+        bad = None
+        if isinstance(n, ast.Call) and isinstance(n.func, ast.Attribute) and n.func.attr in MUTATORS:
+            r = A.root_name(n.func.value)
+            if r is not None and r not in own and r not in ("self", "lena"):
+                bad = (r, "calls `%s`" % A.short(n, 50))
+        elif isinstance(n, (ast.Subscript, ast.Attribute)) and isinstance(n.ctx, (ast.Store, ast.Del)):
+            r = A.root_name(n)
+            if r is not None and r not in own:
+                bad = (r, "stores through `%s`" % A.short(n, 50))
+        elif isinstance(n, ast.Name) and isinstance(n.ctx, (ast.Store, ast.Del)) and n.id in declared:
+            bad = (n.id, "rebinds the captured name")
+        if bad:
+            ctx.violation("C08-f", n, "the formatter returned by format_context %s on `%s`, a variable of the enclosing format_context call: "
+                          "the state is shared by every application of the formatter, so what one context left there (e.g. when a later "
+                          "key was missing) is rendered for the next one" % (bad[1], bad[0]), construct="formatter-state:%s" % bad[0])
+        if isinstance(n, ast.Name) and isinstance(n.ctx, ast.Load) and n.id not in own:
+            n_free += 1
+    ctx.instances_floor("C08-f", n_free, 2, "reads of captured variables in the formatter")
+    ctx.ok("C08-f", g, "the returned formatter only reads what it captured")
+
+
+def check_sentinel(ctx):
+    """None (like 0, '', {}) is a legitimate context value.  A function that takes an optional value or default and also
+    uses it as data must tell 'not given' from 'given as None': by a private sentinel object, not by `is None` / truthiness."""
+    res = ctx.res
+    targets = [(FN, "str_to_dict"), (FN, "update_recursively"), (FN, "get_recursively"), (FN, "format_update_with"),
+               ("lena.context.update_context", "UpdateContext.__init__")]
+    n = 0
+    for modname, qual in targets:
+        fn = ctx.tree.func(modname, qual)
+        dfl = A.param_defaults(fn)
+        for par in [p for p in A.func_params(fn) if p != "self"]:
+            # is the parameter used as data (stored, appended, returned, handed on)?
+            data_use = False
+            presence_tests = []
+            for x in A.walk_local(fn):
+                if not (isinstance(x, ast.Name) and x.id == par and isinstance(x.ctx, ast.Load)):
+                    continue
+                parent = A.parent(x)
+                if isinstance(parent, ast.Compare) and len(parent.ops) == 1 and isinstance(parent.ops[0], (ast.Is, ast.IsNot, ast.Eq, ast.NotEq)):
+                    other = parent.comparators[0] if parent.left is x else parent.left
+                    presence_tests.append((parent, other))
+                    continue
+                if isinstance(parent, ast.Call) and (x in parent.args or any(k.value is x for k in parent.keywords)):
+                    cn = res.call_canon(parent) or ""
+                    if cn == "builtins.bool":
+                        presence_tests.append((parent, None))
+                        continue
+                    if cn.startswith("builtins.") and cn.split(".")[-1] in ("isinstance", "callable", "len", "type", "repr", "str", "format", "hasattr"):
+                        continue
+                    data_use = True
+                elif isinstance(parent, (ast.Return, ast.Assign, ast.Dict, ast.List, ast.Tuple, ast.Subscript, ast.keyword)):
+                    data_use = True
+                elif isinstance(parent, (ast.If, ast.While, ast.IfExp, ast.BoolOp)) or (isinstance(parent, ast.UnaryOp) and isinstance(parent.op, ast.Not)):
+                    presence_tests.append((parent, None))
+            if par not in dfl or not data_use:
+                continue
+            d0 = dfl[par]
+            absent_marker = (isinstance(d0, ast.Constant) and d0.value is None) or \
+                (isinstance(d0, (ast.Name, ast.Attribute)) and (res.resolve(d0) is not None and res.resolve(d0).kind == "var"))
+            if not absent_marker:
+                continue        # a default that is itself a meaningful value (False, 1, "txt"): not an optional-data parameter
+            n += 1
+            d = dfl[par]
+            t = res.resolve(d) if isinstance(d, (ast.Name, ast.Attribute)) else None
+            private = t is not None and t.kind == "var"
+            for test, other in presence_tests:
+                if other is None:
+                    ctx.violation("C08-g", test, "%s decides whether `%s` was given by its truth value (`%s`): the values None, 0, False, '' "
+                                  "and {} would be taken for 'not given'" % (qual, par, A.short(test, 50)), construct="presence-by-truth:%s.%s" % (qual, par))
+                elif isinstance(other, ast.Constant):
+                    ctx.violation("C08-g", test, "%s decides whether `%s` was given by comparing it with %s (`%s`): %s is a value a context "
+                                  "may hold, so asking to store it is taken for not giving a value" % (
+                                      qual, par, A.src(other), A.short(test, 50), A.src(other)), construct="presence-by-constant:%s.%s" % (qual, par))
+            if not presence_tests:
+                ctx.ok("C08-g", fn, "%s: `%s` is used as data and its presence is never tested" % (qual, par))
+            elif private and all(isinstance(o, (ast.Name, ast.Attribute)) and res.resolve(o) == t for _, o in presence_tests if o is not None) \
+                    and all(o is not None for _, o in presence_tests):
+                ctx.ok("C08-g", fn, "%s: presence of `%s` is decided by the private sentinel %s" % (qual, par, A.src(d)))
+    ctx.instances_floor("C08-g", n, 3, "optional data parameters of the context functions")
+
+
 def check(ctx):
+    check_formatter_stateless(ctx)
+    check_sentinel(ctx)
     check_descent(ctx)
     check_empty_key(ctx)
     check_exceptions(ctx)
@@ -625,6 +736,9 @@ def check(ctx):
 
 
 VARIANTS = [
+    M("formatter-shared-values", "lena/context/functions.py", "    def _format_context(context):\n        new_args = []\n        for arg in args:\n            # LenaKeyError may be raised\n            new_args.append(lena.context.get_recursively(context, arg))\n        # other exceptions, like ValueError\n        # (for bad string formatting) may be raised.\n        s = format_str.format(*new_args)\n        return s", "    values = []\n    def _format_context(context):\n        for arg in args:\n            values.append(lena.context.get_recursively(context, arg))\n        s = format_str.format(*values)\n        del values[:]\n        return s", ["C08-f"]),
+    M("str-to-dict-none-test", "lena/context/functions.py", "    if value is not _sentinel:\n        parts.append(value)", "    if value is not None:\n        parts.append(value)", ["C08-g"]),
+    M("get-recursively-default-truthy", "lena/context/functions.py", "    has_default = default is not _sentinel", "    has_default = bool(default)", []),
     M("revert-fix-contains", "lena/context/functions.py", "        if not isinstance(subdict, dict) or key not in subdict:", "        if key not in subdict:", ["C08-a"]),
     M("revert-fix-delete-scalar", "lena/context/elements.py", "        if isinstance(subcont, dict):\n", "        if True:\n", ["C08-a"]),
     M("revert-fix-delete-empty", "lena/context/elements.py", "        if not self._keyl:\n            # empty key removes the entire context\n            context.clear()\n            return value\n", "", ["C08-b"]),
